@@ -233,6 +233,7 @@ def san_env():
 
 
 class Ctx:
+    hangs_seen = 0
     def __init__(self, pid, tier, seed):
         self.pid = pid
         self.tier = tier
@@ -289,7 +290,7 @@ class Ctx:
             e.update(env)
         # the drivers answer one line per request and flush: a request that is not answered within `idle` seconds (or the whole run within
         # `timeout`) is a result (non-termination, deadlock, lost wake-up), not an error of the checker - and it must not cost an hour
-        idle = min(timeout, IDLE_TIMEOUT)
+        idle = min(timeout, IDLE_TIMEOUT if not Ctx.hangs_seen else 60)       # once something hung in this check, do not wait ten minutes again
         outp, errp = self.tmp("out.txt"), self.tmp("err.txt")
         with open(inp) as fin, open(outp, "wb") as fo, open(errp, "wb") as fe:
             p = subprocess.Popen([exe], stdin=fin, stdout=fo, stderr=fe, env=e)
@@ -307,6 +308,7 @@ class Ctx:
                 if now - t0 > timeout or now - last > idle:
                     why = f"\nTIMEOUT: no reply within {int(now - last) if now - last > idle else timeout} s (process killed)"
                     p.kill(); p.wait(); rc = -999
+                    Ctx.hangs_seen += 1
                     break
         so = open(outp, "rb").read(); se = open(errp, "rb").read() + why.encode()
         for f in (inp, outp, errp):
